@@ -51,9 +51,13 @@ def pipeline(ctx, module, limit=None):
         start = max(i for i in range(idx + 1) if '"ev":"reset"' in lines[i])
         end = next((i for i in range(start + 1, len(lines)) if '"ev":"reset"' in lines[i]), len(lines))
         ex = [json.loads(x) for x in lines[start:end]]
-        rej.append((ex[min(idx - start, len(ex) - 1)], ex, idx - start))
+        off = ex[min(idx - start, len(ex) - 1)]
+        if off["ev"] not in rpcpipe.ENDSTATE_EVENTS:
+            raise Inconclusive("the trace contains an event the end-state specification does not know: %s" % json.dumps(off))
+        rej.append((off, ex, idx - start))
         del lines[start:end]
-        if len(rej) >= 15:
+        if len(rej) >= 40:
+            ctx.note("validation stopped after %d rejected executions" % len(rej))
             break
     return scripts, found, summ, rej, states + r.distinct
 
